@@ -40,6 +40,16 @@ Ltac hstep H :=
       let E := fresh "E" in destruct (Varint.pull_uint_var b) as [[? ?]|?] eqn:E; cbn [bind] in H; [apply pull_uint_var_len2 in E|discriminate]
   end.
 
+(* 0 <= Zlen r for every buffer remainder named in a length equation (no auto-generated names in the script) *)
+Ltac nonnegs :=
+  repeat match goal with
+  | H : Zlen ?r = _ |- _ =>
+      lazymatch goal with
+      | _ : 0 <= Zlen r |- _ => fail
+      | _ => pose proof (CodecProofs.Zlen_nonneg r)
+      end
+  end.
+
 Lemma finish_long_inv total version ptype dcid scid token tag rl r h rest :
   Header.finish_long total version ptype dcid scid token tag rl r = Ok (h, rest) ->
   rest = r /\ Header.h_type h = ptype.
@@ -63,7 +73,7 @@ Proof.
   destruct (_ =? 0).
   { destruct (Header.pull_versions _); cbn [bind] in H; [|discriminate]. injection H as <- <-.
     cbn [Header.h_type]. change (Header.PT_VERSION_NEGOTIATION =? Header.PT_RETRY) with false. cbv iota.
-    change (Zlen (@nil Z)) with 0. pose proof (CodecProofs.Zlen_nonneg l1). simpl in *. lia. }
+    change (Zlen (@nil Z)) with 0. nonnegs. simpl in *. lia. }
   destruct (negb (Header.has_fixed_bit _)); [discriminate|].
   match type of H with context [if ?p =? Header.PT_INITIAL then _ else _] => set (ptype := p) in * end.
   destruct (ptype =? Header.PT_INITIAL) eqn:EI.
@@ -171,23 +181,31 @@ Lemma change_cid_props st : c_tls (change_connection_id st) = c_tls st /\ c_clos
   /\ c_is_client (change_connection_id st) = c_is_client st.
 Proof. unfold change_connection_id. destruct (c_peer_avail st); auto. Qed.
 
-(* ---------- the loop over the coalesced packets *)
-Lemma dgram_loop_total : forall fuel total c bs orcs all tr,
-  CodecProofs.bytes_ok bs -> dconn_ok c -> q_end (d_state c) = false -> d_pending c = false ->
-  incl orcs all ->
-  match dgram_loop fuel true total c bs orcs tr with
-  | DOk c' _ => dconn_ok c' /\ own_close_ok (po0 :: all) (c_close (d_st c'))
-  | DRaise _ _ => False
-  end.
+(* ---------- one iteration of the loop over the coalesced packets *)
+Lemma zdrop_shorter (n : Z) (bs : list Z) : 1 <= n -> bs <> [] -> (length (zdrop n bs) < length bs)%nat.
 Proof.
-  induction fuel as [|fuel IH]; intros total c bs orcs all tr Hb Hc Hq Hp Hi.
-  - assert (Hn : c_close (d_st c) = None) by (destruct Hc as (_ & _ & G); auto).
-    destruct bs; cbn; (split; [exact Hc|]); intros code ft E; rewrite Hn in E; discriminate.
-  - assert (Hn : c_close (d_st c) = None) by (destruct Hc as (_ & _ & G); auto).
+  intros Hn Hb. unfold zdrop. rewrite skipn_length. destruct bs as [|x r]; [contradiction|]. cbn [length]. lia.
+Qed.
+
+Definition step_ok (all : list pkt_orc) (bs : list Z) (r : dstep) : Prop :=
+  match r with
+  | SDone (DOk c' _) => dconn_ok c' /\ own_close_ok (po0 :: all) (c_close (d_st c'))
+  | SDone (DRaise _ _) => False
+  | SNextPkt c' next orcs' _ =>
+      dconn_ok c' /\ q_end (d_state c') = false /\ d_pending c' = false /\
+      CodecProofs.bytes_ok next /\ incl orcs' all /\ (length next < length bs)%nat
+  end.
+
+Lemma dgram_step_total : forall total c bs orcs all tr,
+  bs <> [] -> CodecProofs.bytes_ok bs -> dconn_ok c -> q_end (d_state c) = false -> d_pending c = false ->
+  incl orcs all ->
+  step_ok all bs (dgram_step true total c bs orcs tr).
+Proof.
+  intros total c bs2 orcs all tr Hne Hb Hc Hq Hp Hi.
+    assert (Hn : c_close (d_st c) = None) by (destruct Hc as (_ & _ & G); auto).
     assert (Here : dconn_ok c /\ own_close_ok (po0 :: all) (c_close (d_st c))).
     { split; [exact Hc|]. intros code ft E. rewrite Hn in E. discriminate. }
-    destruct bs as [|b0 bs']; [exact Here|].
-    cbn [dgram_loop]. remember (b0 :: bs') as bs2 eqn:Ebs in *. clear Ebs b0 bs'.
+    unfold dgram_step.
     pose proof (HeaderProofs.header_pull_total (d_hcl c) bs2 Hb) as HP.
     pose proof (header_consumed (d_hcl c) bs2) as HC.
     destruct (Header.pull_quic_header (d_hcl c) bs2) as [[h rest]|k].
@@ -248,8 +266,10 @@ Proof.
       destruct ((Header.h_length h <? 0) || (Header.h_length h >? Zlen bs2)) eqn:ESK; [lia|].
       pose proof (bytes_ok_zdrop (Header.h_length h) bs2 Hb) as Hb'.
       assert (Hq1 : q_end (d_state c1) = false) by (rewrite Hs1; exact Hq).
-      destruct (po_decrypt o =? 1); [apply IH; auto|].
-      destruct (po_decrypt o =? 2); [apply IH; auto|].
+      assert (Hsh : (length (zdrop (Header.h_length h) bs2) < length bs2)%nat).
+      { apply zdrop_shorter; [|exact Hne]. destruct (Header.h_type h =? Header.PT_RETRY); lia. }
+      destruct (po_decrypt o =? 1); [cbn [step_ok]; repeat split; auto; apply Hc1|].
+      destruct (po_decrypt o =? 2); [cbn [step_ok]; repeat split; auto; apply Hc1|].
       destruct (po_reserved o).
       { (* reserved bits: close(PROTOCOL_VIOLATION) *)
         unfold do_close. rewrite Hn1, Hq1. destruct Hc1 as (Ht & Hinit & Hgate). split.
@@ -274,8 +294,8 @@ Proof.
       destruct Hcl' as [E|[(code & ft & E)|(code & ft & E & Hcode)]]; rewrite E.
       * (* no close: gate stays open, possibly migrate, next packet *)
         cbn [d_state d_pending with_st]. rewrite Hq2, Hp2. cbn [orb].
-        match goal with |- context [dgram_loop fuel true total ?cc _ _ _] => set (c3 := cc) end.
-        apply IH; auto.
+        match goal with |- context [SNextPkt ?cc _ _ _] => set (c3 := cc) end.
+        cbn [step_ok]. split; [|split; [|split; [|auto]]].
         -- unfold c3. destruct (_ && _ && _).
            ++ pose proof (change_cid_props st') as (Q1 & Q2 & Q3).
               split; [cbn [d_st with_host_cid with_st]; rewrite Q1; exact Ht'|].
@@ -295,6 +315,49 @@ Proof.
            eapply code_ok_dcode; [exact Ho|exact Hst3|exact Hcode].
     + exfalso. exact (header_total _ _ _ _ _ _ _ ED).
 Qed.
+
+(* ---------- the loop *)
+Lemma dgram_loop_total : forall fuel total c bs orcs all tr,
+  CodecProofs.bytes_ok bs -> dconn_ok c -> q_end (d_state c) = false -> d_pending c = false ->
+  incl orcs all ->
+  match dgram_loop fuel true total c bs orcs tr with
+  | DOk c' _ => dconn_ok c' /\ own_close_ok (po0 :: all) (c_close (d_st c'))
+  | DRaise _ _ => False
+  end.
+Proof.
+  induction fuel as [|fuel IH]; intros total c bs orcs all tr Hb Hc Hq Hp Hi.
+  - assert (Hn : c_close (d_st c) = None) by (destruct Hc as (_ & _ & G); auto).
+    destruct bs; cbn; (split; [exact Hc|]); intros code ft E; rewrite Hn in E; discriminate.
+  - assert (Hn : c_close (d_st c) = None) by (destruct Hc as (_ & _ & G); auto).
+    destruct bs as [|b0 bs']; [cbn; split; [exact Hc|]; intros code ft E; rewrite Hn in E; discriminate|].
+    cbn [dgram_loop].
+    pose proof (dgram_step_total total c (b0 :: bs') orcs all tr ltac:(discriminate) Hb Hc Hq Hp Hi) as HS.
+    destruct (dgram_step true total c (b0 :: bs') orcs tr) as [[c' tr'|k tr']|c' next orcs' tr']; cbn [step_ok] in HS.
+    + exact HS.
+    + exact HS.
+    + destruct HS as (H1 & H2 & H3 & H4 & H5 & _). apply IH; auto.
+Qed.
+
+(* the fuel is never exhausted: any two fuels above the number of remaining bytes give the same result *)
+Lemma dgram_fuel_any : forall f1 f2 total c bs orcs all tr,
+  CodecProofs.bytes_ok bs -> dconn_ok c -> q_end (d_state c) = false -> d_pending c = false -> incl orcs all ->
+  (length bs < f1)%nat -> (length bs < f2)%nat ->
+  dgram_loop f1 true total c bs orcs tr = dgram_loop f2 true total c bs orcs tr.
+Proof.
+  induction f1 as [|f1 IH]; intros f2 total c bs orcs all tr Hb Hc Hq Hp Hi H1 H2; [lia|].
+  destruct f2 as [|f2]; [lia|].
+  destruct bs as [|b0 bs']; [reflexivity|]. cbn [dgram_loop].
+  pose proof (dgram_step_total total c (b0 :: bs') orcs all tr ltac:(discriminate) Hb Hc Hq Hp Hi) as HS.
+  destruct (dgram_step true total c (b0 :: bs') orcs tr) as [r|c' next orcs' tr']; [reflexivity|].
+  cbn [step_ok] in HS. destruct HS as (A1 & A2 & A3 & A4 & A5 & A6).
+  eapply IH; eauto; cbn [length] in *; lia.
+Qed.
+
+Theorem dgram_fuel_independent : forall f1 f2 total c bs orcs tr,
+  CodecProofs.bytes_ok bs -> dconn_ok c -> q_end (d_state c) = false -> d_pending c = false ->
+  (length bs < f1)%nat -> (length bs < f2)%nat ->
+  dgram_loop f1 true total c bs orcs tr = dgram_loop f2 true total c bs orcs tr.
+Proof. intros. eapply dgram_fuel_any; eauto. apply incl_refl. Qed.
 
 (* ---------- receive_datagram *)
 Theorem receive_datagram_total_all : forall c data orcs,
